@@ -73,6 +73,20 @@ fn boxed_case<T: MaybeDynSized<Metadata = usize> + ?Sized>(ctx: &mut Ctx, key: &
     if rd32(&obs.bytes, size_off) as usize != total {
         bad.push(format!("size field {} != header {} + content {}", rd32(&obs.bytes, size_off), hdr_size, n));
     }
+    // every header byte except the size field (and the checksum word of the 16-byte header, judged separately) is the
+    // supplied header's
+    {
+        let h = header();
+        let hb: &[u8] = unsafe { std::slice::from_raw_parts(&h as *const T::Header as *const u8, hdr_size) };
+        for i in 0..hdr_size {
+            let in_size = (size_off..size_off + 4).contains(&i);
+            let in_csum = hdr_size == 16 && (12..16).contains(&i);
+            if !in_size && !in_csum && obs.bytes[i] != hb[i] {
+                bad.push(format!("header byte {} is {:#04x}, the supplied header has {:#04x} (only the size{} may be rewritten)", i, obs.bytes[i], hb[i], if hdr_size == 16 { " and checksum" } else { "" }));
+                break;
+            }
+        }
+    }
     if obs.bytes[hdr_size..] != *content {
         bad.push("content after the header is not the concatenation of the slices".to_string());
     }
@@ -126,7 +140,7 @@ fn aliasing_case(ctx: &mut Ctx, hk: usize, buf: &[u8], parts: &[(usize, usize)],
             0 => go!(DynSizedStructure<TagHeader>, TagHeader::new(TagType::Custom(0x1337), 0)),
             1 => go!(DummyDstTag, DummyTestHeader::new(42, 0)),
             2 => go!(DynSizedStructure<HeaderTagHeader>, HeaderTagHeader::new(HeaderTagType::Address, HeaderTagFlag::Optional, 0)),
-            3 => go!(DynSizedStructure<BootInformationHeader>, std::mem::transmute::<[u32; 2], BootInformationHeader>([0, 0])),
+            3 => go!(DynSizedStructure<BootInformationHeader>, std::mem::transmute::<[u32; 2], BootInformationHeader>([0, 0xA5B6_C7D8])),
             _ => go!(DynSizedStructure<Multiboot2BasicHeader>, std::mem::transmute::<[u32; 4], Multiboot2BasicHeader>([0xE852_50D6, 4, 0, 0])),
         }
     });
@@ -169,14 +183,15 @@ fn clone_case<T: MaybeDynSized<Metadata = usize> + ?Sized>(ctx: &mut Ctx, key: &
     }
 }
 
+// (the 16-byte header here carries a magic other than the Multiboot2 one: construction must not rewrite it)
 fn dispatch(ctx: &mut Ctx, hk: usize, content: &[u8], split: &[usize]) {
     let none = |_: &[u8]| None;
     match hk {
         0 => boxed_case::<DynSizedStructure<TagHeader>>(ctx, "TagHeader", 8, 4, || TagHeader::new(TagType::Custom(0x1337), 0), content, split, &none),
         1 => boxed_case::<DummyDstTag>(ctx, "DummyTestHeader", 8, 4, || DummyTestHeader::new(42, 0), content, split, &none),
         2 => boxed_case::<DynSizedStructure<HeaderTagHeader>>(ctx, "HeaderTagHeader", 8, 4, || HeaderTagHeader::new(HeaderTagType::Address, HeaderTagFlag::Optional, 0), content, split, &none),
-        3 => boxed_case::<DynSizedStructure<BootInformationHeader>>(ctx, "BootInformationHeader", 8, 0, || unsafe { std::mem::transmute::<[u32; 2], BootInformationHeader>([0, 0]) }, content, split, &none),
-        _ => boxed_case::<DynSizedStructure<Multiboot2BasicHeader>>(ctx, "Multiboot2BasicHeader", 16, 8, || unsafe { std::mem::transmute::<[u32; 4], Multiboot2BasicHeader>([0xE852_50D6, 4, 0, 0]) }, content, split, &|b: &[u8]| {
+        3 => boxed_case::<DynSizedStructure<BootInformationHeader>>(ctx, "BootInformationHeader", 8, 0, || unsafe { std::mem::transmute::<[u32; 2], BootInformationHeader>([0, 0xA5B6_C7D8]) }, content, split, &none),
+        _ => boxed_case::<DynSizedStructure<Multiboot2BasicHeader>>(ctx, "Multiboot2BasicHeader", 16, 8, || unsafe { std::mem::transmute::<[u32; 4], Multiboot2BasicHeader>([0x1BAD_B002, 4, 0, 0]) }, content, split, &|b: &[u8]| {
             let s = rd32(b, 0).wrapping_add(rd32(b, 4)).wrapping_add(rd32(b, 8)).wrapping_add(rd32(b, 12));
             if s != 0 { Some("checksum does not match the patched length".to_string()) } else { None }
         }),
@@ -203,7 +218,7 @@ fn run(ctx: &mut Ctx) {
                             0 => boxed_case::<DynSizedStructure<TagHeader>>(ctx, "TagHeader", 8, 4, || TagHeader::new(TagType::Custom(0x1337), 0), &content, &split, &none),
                             1 => boxed_case::<DummyDstTag>(ctx, "DummyTestHeader", 8, 4, || DummyTestHeader::new(42, 0), &content, &split, &none),
                             2 => boxed_case::<DynSizedStructure<HeaderTagHeader>>(ctx, "HeaderTagHeader", 8, 4, || HeaderTagHeader::new(HeaderTagType::Address, HeaderTagFlag::Optional, 0), &content, &split, &none),
-                            3 => boxed_case::<DynSizedStructure<BootInformationHeader>>(ctx, "BootInformationHeader", 8, 0, || unsafe { std::mem::transmute::<[u32; 2], BootInformationHeader>([0, 0]) }, &content, &split, &none),
+                            3 => boxed_case::<DynSizedStructure<BootInformationHeader>>(ctx, "BootInformationHeader", 8, 0, || unsafe { std::mem::transmute::<[u32; 2], BootInformationHeader>([0, 0xA5B6_C7D8]) }, &content, &split, &none),
                             _ => boxed_case::<DynSizedStructure<Multiboot2BasicHeader>>(ctx, "Multiboot2BasicHeader", 16, 8, || unsafe { std::mem::transmute::<[u32; 4], Multiboot2BasicHeader>([0xE852_50D6, 4, 0, 0]) }, &content, &split, &|b: &[u8]| {
                                 let s = rd32(b, 0).wrapping_add(rd32(b, 4)).wrapping_add(rd32(b, 8)).wrapping_add(rd32(b, 12));
                                 if s != 0 { Some("checksum does not match the patched length".to_string()) } else { None }
@@ -314,7 +329,7 @@ fn run(ctx: &mut Ctx) {
                             0 => boxed_case::<DynSizedStructure<TagHeader>>(ctx, "TagHeader", 8, 4, || TagHeader::new(TagType::Custom(0x1337), 0), &content, &split, &none),
                             1 => boxed_case::<DummyDstTag>(ctx, "DummyTestHeader", 8, 4, || DummyTestHeader::new(42, 0), &content, &split, &none),
                             2 => boxed_case::<DynSizedStructure<HeaderTagHeader>>(ctx, "HeaderTagHeader", 8, 4, || HeaderTagHeader::new(HeaderTagType::Address, HeaderTagFlag::Optional, 0), &content, &split, &none),
-                            3 => boxed_case::<DynSizedStructure<BootInformationHeader>>(ctx, "BootInformationHeader", 8, 0, || unsafe { std::mem::transmute::<[u32; 2], BootInformationHeader>([0, 0]) }, &content, &split, &none),
+                            3 => boxed_case::<DynSizedStructure<BootInformationHeader>>(ctx, "BootInformationHeader", 8, 0, || unsafe { std::mem::transmute::<[u32; 2], BootInformationHeader>([0, 0xA5B6_C7D8]) }, &content, &split, &none),
                             _ => boxed_case::<DynSizedStructure<Multiboot2BasicHeader>>(ctx, "Multiboot2BasicHeader", 16, 8, || unsafe { std::mem::transmute::<[u32; 4], Multiboot2BasicHeader>([0xE852_50D6, 4, 0, 0]) }, &content, &split, &|b: &[u8]| {
                                 let s = rd32(b, 0).wrapping_add(rd32(b, 4)).wrapping_add(rd32(b, 8)).wrapping_add(rd32(b, 12));
                                 if s != 0 { Some("checksum does not match the patched length".to_string()) } else { None }
@@ -347,7 +362,7 @@ fn run(ctx: &mut Ctx) {
         cl!("EFIMemoryMapTag", EFIMemoryMapTag, |t: &EFIMemoryMapTag| t.header().size as usize, || EFIMemoryMapTag::new_from_map(48, 1, &blob));
         cl!("GenericTag", DynSizedStructure<TagHeader>, |t: &DynSizedStructure<TagHeader>| t.header().size as usize, || new_boxed::<DynSizedStructure<TagHeader>>(TagHeader::new(TagType::Custom(77), 0), &[&blob]));
         cl!("GenericHeaderTag", DynSizedStructure<HeaderTagHeader>, |t: &DynSizedStructure<HeaderTagHeader>| t.header().size() as usize, || new_boxed::<DynSizedStructure<HeaderTagHeader>>(HeaderTagHeader::new(HeaderTagType::Relocatable, HeaderTagFlag::Optional, 0), &[&blob]));
-        cl!("BootInformation", DynSizedStructure<BootInformationHeader>, |t: &DynSizedStructure<BootInformationHeader>| t.header().total_size() as usize, || new_boxed::<DynSizedStructure<BootInformationHeader>>(unsafe { std::mem::transmute::<[u32; 2], BootInformationHeader>([0, 0]) }, &[&blob]));
+        cl!("BootInformation", DynSizedStructure<BootInformationHeader>, |t: &DynSizedStructure<BootInformationHeader>| t.header().total_size() as usize, || new_boxed::<DynSizedStructure<BootInformationHeader>>(unsafe { std::mem::transmute::<[u32; 2], BootInformationHeader>([0, 0xA5B6_C7D8]) }, &[&blob]));
         cl!("Multiboot2Header", DynSizedStructure<Multiboot2BasicHeader>, |t: &DynSizedStructure<Multiboot2BasicHeader>| t.header().length() as usize, || new_boxed::<DynSizedStructure<Multiboot2BasicHeader>>(unsafe { std::mem::transmute::<[u32; 4], Multiboot2BasicHeader>([0xE852_50D6, 4, 0, 0]) }, &[&blob]));
         cl!("DummyDstTag", DummyDstTag, |t: &DummyDstTag| t.header().size() as usize, || new_boxed::<DummyDstTag>(DummyTestHeader::new(42, 0), &[&blob]));
         if n <= 8 {
